@@ -84,6 +84,10 @@ def escaped_violation(hist, prop_default=None):
             prop = "C10"
         elif fn.endswith("runner.py") or fn.endswith("model.py") or fn.endswith("fixture.py"):
             prop = "C12"
+        elif fn.endswith("configuration.py") and "build_name_re" in names:
+            prop = "C10"        # a valid --name pattern list must yield a usable selection
+        elif "tag_expression" in fn:
+            prop = "C09"
     rule = {"C16": "reporter-crash", "C14": "reporter-crash", "C15": "formatter-crash",
             "C17": "formatter-crash", "C05": "foreign-exception", "C12": "exception-escaped",
             "C18": "exception-escaped", "C11": "exception-escaped",
